@@ -38,12 +38,11 @@ Theorem C17_closed_conn_removed : forall size ls s c t s',
 Proof. exact closed_conn_removed_lemma. Qed.
 Print Assumptions C17_closed_conn_removed.
 
-(* Every pooled connection is open, or its error callback is still to come -- on schedules where no
-   error callback runs while a connect still holds that very connection (between session.connect
-   returning and the pool lock).  Without the hypothesis: Refuted.closed_conn_removed_refuted (F-C17-2). *)
+(* Every pooled connection is open, or its error callback is still to come and will remove it:
+   connect does not pool a connection that failed while it held it (repair of F-C17-2; the pre-fix
+   behaviour is Refuted.closed_conn_pooled_before_fix). *)
 Theorem C17_pooled_conns_alive : forall size ls s,
-  prun (pool_init size) ls = Some s -> pavoids herr_in_hand (pool_init size) ls = true ->
-  pooled_conns_alive s.
+  prun (pool_init size) ls = Some s -> pooled_conns_alive s.
 Proof. exact pool_conns_alive_lemma. Qed.
 Print Assumptions C17_pooled_conns_alive.
 
@@ -74,27 +73,28 @@ Print Assumptions C17_pool_terminates.
 
 (* ---------------- refresh debouncer (ring refresh; stopped by Session.Close) ---------------- *)
 
-(* stop() returns: on schedules where no refresh request races it (nothing pending when stop takes
-   effect, no refreshNow afterwards), a stop() blocked in its send on quit is never stuck, the
-   flusher's select can take nothing but quit, and two or three steps of the flusher and of stop()
-   itself complete the call.  Without the hypothesis: Refuted.refresh_stop_returns_refuted (F-C17-1). *)
-Theorem C17_refresh_stop_returns : forall ls s t,
-  rrun rdeb_init ls = Some s -> ravoids request_races_stop rdeb_init ls = true ->
-  alookup t (r_stoppers s) = Some RSSend ->
-  ~ r_stop_stuck s t
-  /\ (forall src t', rstep s (RFlWake src t') <> None -> src = SQuit)
-  /\ exists ls' s', (ls' = [RFlWake SQuit t; RStopClose t] \/ ls' = [RFlDone; RFlWake SQuit t; RStopClose t])
-       /\ rrun s ls' = Some s' /\ alookup t (r_stoppers s') = Some RSDone.
+(* stop() returns, unconditionally (repair of F-C17-1: stop only closes quit): in every state, for
+   every stop() call in whatever phase, the call's own remaining steps (at most two) are enabled and
+   complete it -- it waits for nobody. *)
+Theorem C17_refresh_stop_returns : forall s t ph,
+  alookup t (r_stoppers s) = Some ph ->
+  exists ls' s', (ls' = [] \/ ls' = [RStopClose t] \/ ls' = [RStopLock t] \/ ls' = [RStopLock t; RStopClose t])
+    /\ rrun s ls' = Some s' /\ alookup t (r_stoppers s') = Some RSDone.
 Proof. exact refresh_stop_returns_lemma. Qed.
 Print Assumptions C17_refresh_stop_returns.
 
-(* Sharper, schedule-level form: whatever requests race stop(), the only way a stop() can end up
-   blocked for ever is the flusher returning after a wake-up that was not quit (it took the
-   refreshNow token or the timer value, then saw stopped). *)
-Theorem C17_refresh_stop_stuck_only_if_quit_missed : forall ls s t,
-  rrun rdeb_init ls = Some s -> ravoids flusher_misses_quit rdeb_init ls = true -> ~ r_stop_stuck s t.
-Proof. exact stuck_only_if_quit_missed_lemma. Qed.
-Print Assumptions C17_refresh_stop_stuck_only_if_quit_missed.
+(* ... and the flusher goroutine exits: once stopped is set, quit is closed or the stop() call that set
+   it can close it at once; whichever select case the flusher then takes (queued refreshNow, timer,
+   quit) its next step returns; and with quit closed at most three steps of its own take it there. *)
+Theorem C17_refresh_flusher_exits : forall ls s,
+  rrun rdeb_init ls = Some s -> r_stopped s = true ->
+  (r_quit_closed s = true \/ exists t s1, rstep s (RStopClose t) = Some s1 /\ r_quit_closed s1 = true /\ r_fl s1 = r_fl s)
+  /\ (forall src s1, rstep s (RFlWake src) = Some s1 -> exists s2, rstep s1 RFlLock = Some s2 /\ r_fl s2 = RExited)
+  /\ (r_quit_closed s = true -> r_fl s <> RExited ->
+      exists ls' s', (ls' = [RFlLock] \/ ls' = [RFlWake SQuit; RFlLock] \/ ls' = [RFlDone; RFlWake SQuit; RFlLock])
+        /\ rrun s ls' = Some s' /\ r_fl s' = RExited).
+Proof. exact flusher_exits_lemma. Qed.
+Print Assumptions C17_refresh_flusher_exits.
 
 (* Once stop() has set stopped, refreshFn is never started again (any schedule, no hypothesis). *)
 Theorem C17_no_refresh_after_stop : forall s ls s',
@@ -136,33 +136,26 @@ Print Assumptions C17_queries_fail_after_close.
 
 (* ---------------- non-vacuity: the hypotheses hold on non-trivial schedules ---------------- *)
 
-(* two fills race through the check/re-check window of a pool of size 2, a dial fails, a pooled
-   connection dies and is reported, the pool is closed while a connect holds a connection *)
+(* reachability is not vacuous: two fills race through the check/re-check window of a pool of size
+   2, a dial fails, a pooled connection dies and is reported, the pool is closed while a connect
+   holds a connection *)
 Definition ex_pool : list plabel :=
   [FillStart 0; FillStart 1; FillCheck 0; FillCheck 1; FillDecide 0; FillDecide 1;
    DialOk 0; ConnectAdd 0; FillAsync 0; DialFail 1; FillStopped 0;
    ConnDie 0; HErr 0 2; FillCheck 2; FillDecide 2; DialOk 2; PClose; ConnectAdd 2].
 Example ex_pool_runs :
-  exists s, prun (pool_init 2) ex_pool = Some s /\ pavoids herr_in_hand (pool_init 2) ex_pool = true
+  exists s, prun (pool_init 2) ex_pool = Some s
             /\ p_closed s = true /\ p_open s = [] /\ p_next_conn s = 2%nat.
 Proof. eexists. split; [vm_compute; reflexivity|]. repeat split; reflexivity. Qed.
 
-(* stop() while a refresh is running and nothing else is pending: covered by the hypothesis *)
+(* the former F-C17-1 situation: a refresh is running, a second one is queued, stop(): stopped is
+   set and the hypotheses of C17_refresh_flusher_exits hold in a non-trivial state *)
 Definition ex_refresh : list rlabel :=
-  [RDebounce; RTimerFire; RFlWake STimer 0; RFlLock; RFlDone; RRefreshNow; RFlWake SNow 0; RFlLock; RStopCall 7; RStopLock 7].
+  [RDebounce; RTimerFire; RFlWake STimer; RFlLock; RFlDone; RRefreshNow; RFlWake SNow; RFlLock; RRefreshNow;
+   RStopCall 7; RStopLock 7; RStopClose 7; RFlDone].
 Example ex_refresh_runs :
-  exists s, rrun rdeb_init ex_refresh = Some s /\ ravoids request_races_stop rdeb_init ex_refresh = true
-            /\ alookup 7%nat (r_stoppers s) = Some RSSend /\ r_fl s = RRefresh (Some 1%nat) /\ r_calls s = 2%nat.
-Proof. eexists. split; [vm_compute; reflexivity|]. repeat split; reflexivity. Qed.
-
-(* the F-C17-1 situation in which the select happens to take quit: a request does race stop(), the
-   schedule-level hypothesis holds, stop() returns *)
-Definition ex_refresh_lucky : list rlabel :=
-  [RRefreshNow; RFlWake SNow 0; RFlLock; RRefreshNow; RStopCall 0; RStopLock 0; RFlDone; RFlWake SQuit 0; RFlLock; RStopClose 0].
-Example ex_refresh_lucky_runs :
-  exists s, rrun rdeb_init ex_refresh_lucky = Some s /\ ravoids flusher_misses_quit rdeb_init ex_refresh_lucky = true
-            /\ ravoids request_races_stop rdeb_init ex_refresh_lucky = false
-            /\ alookup 0%nat (r_stoppers s) = Some RSDone /\ r_cancelled s = 1%nat.
+  exists s, rrun rdeb_init ex_refresh = Some s /\ r_stopped s = true /\ r_quit_closed s = true
+            /\ alookup 7%nat (r_stoppers s) = Some RSDone /\ r_fl s = RSelect /\ r_now s = true /\ r_calls s = 2%nat.
 Proof. eexists. split; [vm_compute; reflexivity|]. repeat split; reflexivity. Qed.
 
 (* one stop() of the event debouncer while the timer has fired with two frames buffered *)
